@@ -3,7 +3,9 @@
 Spec:     specs/FsLock.tla   (file system + property layer `AbsEvent` + the lock()/unlock() protocol as coded)
           FsLockMC           exhaustive TLC runs of the protocol (safety per configuration class, liveness)
           FsLockTrace        batched validation of real executions (mode "abs" = verdict, "impl" = model fidelity)
-Binding:  the real twisted.python.lockfile.FilesystemLock.lock()/unlock(), one thread per "process".  The
+Binding:  the real twisted.python.lockfile.FilesystemLock.lock()/unlock(), one "process" per script, run either as
+          one thread per process (ThreadRun: TLC counterexample replays, --replay, samples) or by re-execution with
+          recorded call results (ReRun: mass exploration); the two runners are cross-checked in every run.  The
           module-level symlink/readlink/kill/rmlink and os.getpid of lockfile are replaced by stubs over an
           in-memory link; every stub call (and every call of lock()/unlock()) waits for the scheduler, so the
           harness chooses the interleaving.  Logged: every file-system call with its result, every
